@@ -220,7 +220,7 @@ package kvgraph
 // nothing else; an absent edge is an error that changes nothing.
 //@ func (*KVInterfaceGDB).DelEdge
 //@   property C04 C03
-//@   option prelude=keys,kv
+//@   option prelude=keys,kv,idxkeys
 //@   option load=kvindex,kvi,timestamp
 //@   option globals=kvgraph
 //@   modifies KV. TS.
@@ -242,6 +242,8 @@ package kvgraph
 //@   ensures frame: result == nil ==> (forall k:Str :: k != ekey && k != sk && k != dk ==> ((kvhas(k) <==> old(kvhas(k))) && kvval(k) == old(kvval(k))))
 //@   ensures touch: result == nil ==> touched(kgdb.graph)
 //@   ensures atomic: kvwrites() <= old(kvwrites()) + 1
+// KNOWN FINDING (same defect as DelVertex#ensures:unindexed): the edge's label-index entry stays
+//@   ensures unindexed: result == nil ==> (forall t:Str :: !kvhas(entryKeyOf(kgdb.graph + ".e.label", 1, t, eid)))
 
 // AddVertex: one bulk write; only the vertex keys of the given ids (and index keys)
 // change; the graph's timestamp is touched exactly when something was stored.
@@ -331,3 +333,34 @@ package kvgraph
 // graph that exists but whose elements would never be label-indexed
 //@   callsite KVInterface.Set requires indexfirst: kvhas(kvindex.FieldKey(graph + ".v.label")) && kvhas(kvindex.FieldKey(graph + ".e.label"))
 //@   ensures frame: forall k:Str :: !idxkey(k) && k != GraphKey(graph) ==> ((kvhas(k) <==> old(kvhas(k))) && kvval(k) == old(kvval(k)))
+
+// DelVertex: the vertex key and the keys of its incident edges are deleted in one
+// transaction; nothing is added; index keys are not touched at all (proved: idxframe) -
+// which is why 'unindexed' below cannot hold: KNOWN FINDING, the label index keeps the
+// deleted vertex (label scans and label listings still report it).
+//@ func (*KVInterfaceGDB).DelVertex
+//@   property C03
+//@   option prelude=keys,kv,idxkeys
+//@   option load=kvindex,kvi,timestamp
+//@   option globals=kvgraph
+//@   modifies KV. TS. SH.Str alloc
+//@   requires nonnil: kgdb != nil && kgdb.kvg != nil && kgdb.kvg.kv != nil && kgdb.kvg.ts != nil
+//@   loop 101 invariant shape: soff(delKeys) == 0 && len(delKeys) >= 0 && sref(delKeys) >= 0 && sref(delKeys) < alloc
+//@   loop 101 invariant keys: forall j :: 0 <= j && j < len(delKeys) ==> !idxkey(delKeys[j])
+//@   loop 101 invariant store: same(kvdom(), old(kvdom())) && same(kvvals(), old(kvvals()))
+//@   loop 101 invariant iter: itvalid() ==> kvhas(itpos())
+//@   loop 102 invariant shape: soff(delKeys) == 0 && len(delKeys) >= 0 && sref(delKeys) >= 0 && sref(delKeys) < alloc
+//@   loop 102 invariant keys: forall j :: 0 <= j && j < len(delKeys) ==> !idxkey(delKeys[j])
+//@   loop 102 invariant store: same(kvdom(), old(kvdom())) && same(kvvals(), old(kvvals()))
+//@   loop 102 invariant iter: itvalid() ==> kvhas(itpos())
+//@   loop 201 invariant idxframe: forall k:Str :: idxkey(k) ==> ((kvhas(k) <==> old(kvhas(k))) && kvval(k) == old(kvval(k)))
+//@   loop 201 invariant onlydeletes: (forall k:Str :: kvhas(k) ==> old(kvhas(k))) && same(kvvals(), old(kvvals()))
+//@   loop 201 invariant gone: !kvhas(vid)
+//@   loop 201 invariant nw: kvwrites() == old(kvwrites())
+//@   loop 201 invariant quiet: same(touchedset(), old(touchedset()))
+//@   ensures removed: result == nil ==> !kvhas(VertexKey(kgdb.graph, id))
+//@   ensures onlydeletes: (forall k:Str :: kvhas(k) ==> old(kvhas(k))) && same(kvvals(), old(kvvals()))
+//@   ensures idxframe: forall k:Str :: idxkey(k) ==> ((kvhas(k) <==> old(kvhas(k))) && kvval(k) == old(kvval(k)))
+//@   ensures touch: result == nil ==> touched(kgdb.graph)
+//@   ensures atomic: kvwrites() <= old(kvwrites()) + 1
+//@   ensures unindexed: result == nil ==> (forall t:Str :: !kvhas(entryKeyOf(kgdb.graph + ".v.label", 1, t, id)))
